@@ -5,7 +5,7 @@
    commutative-ring laws, EVERY shape r x c (r >= 1), EVERY entry, vector and scalar.  No law about conj is needed.
    c01s_wf r c A := A has r rows of length c. *)
 From Coq Require Import List ZArith Bool Ring.
-From DuneV Require Import Params_gen C01_Model C01_Model2 C01_Spec C01_Proofs C01_Proofs_Ops C01_Proofs_Mul C01_Proofs_Views C01_Proofs_Via C01_Proofs_Conv C01_Proofs_Neg C01_Proofs_Extra C01_Proofs_Div C01_Proofs_Zp C01_Proofs_Src C01_Proofs_More C01_Proofs_Cells.
+From DuneV Require Import Params_gen C01_Model C01_Model2 C01_Spec C01_Proofs C01_Proofs_Ops C01_Proofs_Mul C01_Proofs_Views C01_Proofs_Via C01_Proofs_Conv C01_Proofs_Neg C01_Proofs_Extra C01_Proofs_Div C01_Proofs_Zp C01_Proofs_Src C01_Proofs_More C01_Proofs_Cells C01_Proofs_Asg.
 Import ListNotations.
 
 Section C01.
@@ -169,6 +169,29 @@ Theorem C01_assignment : forall r c (A T0 : list (list R)) (x y : list R) (k : R
   c01_fill x k = map (fun _ => k) x /\ c01_vassign K x y = y /\ c01_mfill A k = map (map (fun _ => k)) A /\
   c01_mult_transposed K r c A T0 = c01s_mat_mul K c (c01s_transpose K c A) A.
 Proof. exact (P_assignment K Rth). Qed.
+
+(* ROUND 6 — assignment / conversion INTO AN EXISTING OBJECT, for EVERY previous state of the target.  T0: a static target
+   (FieldMatrix) holding arbitrary entries; Tany: a DynamicMatrix target holding ANY list of rows (any shape, ragged, empty);
+   Td: a square static target of a diagonal source; x: a vector target holding arbitrary entries.  After the assignment the
+   target holds exactly the entries of the source (dense source B via the generic DenseMatrixAssigner, via the cross-field
+   FieldMatrix::operator=, via defaulted copy/move; DiagonalMatrix source d via its assigner WITH the leading zero-fill; a scalar;
+   vectors via DenseVector::operator=, std::copy, fill, copy, the size-1 specialisation) *)
+Theorem C01_assignment_into : forall r c (T0 Tany B Td : list (list R)) (d x y : list R) (k : R),
+  c01s_wf r c B -> c01s_wf r c T0 -> 0 < r -> c01s_wf (length d) (length d) Td -> length x = length y ->
+  c01_assign_dense_into K T0 B = B /\ c01_fm_assign_rows K T0 B = B /\ c01_copy_assign T0 B = B /\ c01_dm_assign_dense K Tany B = B /\
+  c01_assign_diag_into K true Td d = c01s_diag K d /\ c01_dm_assign_diag K true Tany d = c01s_diag K d /\
+  c01_mfill T0 k = map (map (fun _ => k)) B /\ c01_vassign K x y = y /\ c01_copy_into K y x = y /\ c01_fill x k = map (fun _ => k) y /\
+  c01_copy_assign x y = y /\ (length y = 1 -> c01_fv1_assign K x y = y).
+Proof. exact (P_assignment_into K). Qed.
+(* scalar views as targets: the target's cell gets the source's value (or the scalar), every other cell is unchanged *)
+Theorem C01_assignment_into_views : forall (st : list R) a m j k, a < length st ->
+  c01_at K (c01_cell_assign K st a m) j = (if Nat.eqb a j then c01_at K st m else c01_at K st j) /\
+  c01_at K (c01_cell_fill st a k) j = (if Nat.eqb a j then k else c01_at K st j).
+Proof. exact (P_cell_assign K). Qed.
+(* TIE TO THE SOURCE TEXT: the zero-fill token of DenseMatrixAssigner<Dense, DiagonalMatrix>::apply, re-read from diagonalmatrix.hh on
+   every run (tools/params.d/C01.py), is the one C01_assignment_into is stated for *)
+Theorem C01_assignment_source_zerofill : c01_param_diag_assign_zerofill = true.
+Proof. exact (eq_refl true). Qed.
 
 (* the norms that are exact on integers: one_norm / one_norm_real / two_norm2 are sums, infinity_norm(_real) maxima, of the
    componentwise absolute value nrm; frobenius_norm2 and the matrix infinity norms are the sum / max over the rows *)
@@ -410,6 +433,9 @@ Print Assumptions C01_view_products_alias_free.
 Print Assumptions C01_view_products_alias_refuted.
 Print Assumptions C01_view_cells.
 Print Assumptions C01_scalar_from_receiver.
+Print Assumptions C01_assignment_into.
+Print Assumptions C01_assignment_into_views.
+Print Assumptions C01_assignment_source_zerofill.
 
 (* the hypotheses are satisfiable: the carriers used by the correspondence check satisfy the laws *)
 Theorem C01_instance_Z : ring_theory (c01_O c01_Z_ops) (c01_I c01_Z_ops) (c01_add c01_Z_ops) (c01_mul c01_Z_ops) (c01_sub c01_Z_ops) (c01_opp c01_Z_ops) (@eq Z).
@@ -515,3 +541,21 @@ Theorem C01_scalar_from_receiver_literal_refuted :
   c01_vec_elem c01_Z_ops (fun _ a k => a * k) [2; 3; 4] 0 = [4; 6; 8].
 Proof. exact P_vec_elem_literal_refuted. Qed.
 Print Assumptions C01_scalar_from_receiver_literal_refuted.
+
+(* ROUND 6: without the leading zero-fill the DiagonalMatrix assigner is right only for targets whose off-diagonal part is already
+   zero (fresh objects): FieldMatrix<int,2,2>{{1,2},{3,4}} = DiagonalMatrix{5,6} would keep the 2 and the 3 *)
+Theorem C01_assignment_diag_without_zerofill_refuted :
+  exists (T0 : list (list Z)) d, c01s_wf (length d) (length d) T0 /\
+    c01_assign_diag_into c01_Z_ops false T0 d <> c01s_diag c01_Z_ops d /\
+    c01_assign_diag_into c01_Z_ops false (c01_mzero c01_Z_ops 2 2) d = c01s_diag c01_Z_ops d.
+Proof. exact P_assign_diag_without_zerofill_refuted. Qed.
+Print Assumptions C01_assignment_diag_without_zerofill_refuted.
+(* non-vacuity of C01_assignment_into: dirty targets, a DynamicMatrix target of another (ragged) shape *)
+Example C01_example_assignment_into :
+  c01_assign_diag_into c01_Z_ops true [[1;2];[3;4]] [5;6] = [[5;0];[0;6]] /\
+  c01_dm_assign_diag c01_Z_ops true [[1;2;3]; [4]; []; [7;8]] [5;6] = [[5;0];[0;6]] /\
+  c01_dm_assign_dense c01_Z_ops [[9;9;9;9]] [[1;2];[3;4];[5;6]] = [[1;2];[3;4];[5;6]] /\
+  c01_assign_dense_into c01_Z_ops [[9;8];[7;6]] [[1;2];[3;4]] = [[1;2];[3;4]] /\
+  c01_fm_assign_rows c01_Z_ops [[9;8];[7;6]] [[1;2];[3;4]] = [[1;2];[3;4]] /\ c01_mfill [[9;8];[7;6]] 5 = [[5;5];[5;5]] /\
+  c01_vassign c01_Z_ops [9;8;7] [1;2;3] = [1;2;3] /\ c01_cell_assign c01_Z_ops [3; 5] 0 1 = [5; 5].
+Proof. repeat split; vm_compute; reflexivity. Qed.
